@@ -608,17 +608,3 @@ def check_C11(tier, only):
     cov['functions_encoded'] = ['feos_core::state::cache::Cache::* (compiled, in-crate harness)', 'State getters in residual_properties.rs / properties.rs through the public API', 'State::clone']
     out.coverage = cov
     return out.finish()
-
-
-def check_C05(tier, only):
-    out = Outcome('C05', tier, 'model_checking')
-    cov = ek_part(out, 'C05', tier, [('ext', 'c05_trivial_solution_1c')], only,
-                  ['only the non-triviality predicate of C05 is decided: PhaseEquilibrium::is_trivial_solution over all pairs of valid 1-component states (all f64 T, V, N accepted by State::new_nvt): '
-                   'true implies |rho2/rho1 - 1| < 1e-5; bitwise copies are trivial; rho2 > 2 rho1 is never trivial',
-                   'isofugacity / balances / success clauses concern converged iterative solvers: not decided (see DESIGN.md)'])
-    cov.setdefault('states', 1); cov.setdefault('transitions', 1)
-    cov['traces_validated_against_impl'] = 0
-    cov['samples'] = [{'harness': h, 'result': r} for h, r in list(cov.get('harnesses', {}).items())[:3]] or [{}]
-    cov['functions_encoded'] = ['PhaseEquilibrium::<E,2>::is_trivial_solution', 'State::new_nvt', 'validate']
-    out.coverage = cov
-    return out.finish()
